@@ -1,41 +1,41 @@
 (* C04 - Scripts see the host object's fields faithfully. *)
 From Coq Require Import Floats.
-From EF Require Import Model.Base Model.Value Model.Env Model.Reflect Model.VM Model.Api Proofs.ReflectProofs.
+From EF Require Import Model.Base Gen.Tables Model.Value Model.Env Model.Reflect Model.VM Model.Api Proofs.ReflectProofs.
 Open Scope N_scope.
 
 (* the supported kinds convert without loss *)
-Theorem C04_scalars_lossless : forall o fuel z f s b u bits,
-  to_object o (S fuel) (HInt 0 z) = Some (CVal (VInt z)) /\
-  to_object o (S fuel) (HInt 64 z) = Some (CVal (VInt z)) /\
-  to_object o (S fuel) (HFloat bits f) = Some (CVal (VFloat f)) /\
-  to_object o (S fuel) (HString s) = Some (CVal (VStr s)) /\
-  to_object o (S fuel) (HBool b) = Some (CVal (VBool b)) /\
-  to_object o (S fuel) (HTime u) = Some (CVal (VInt u)) /\
-  to_object o (S fuel) HNil = Some (CVal VNull).
+Theorem C04_scalars_lossless : forall o fuel depth z f s b u bits,
+  to_object o (S fuel) depth (HInt 0 z) = Some (CVal (VInt z)) /\
+  to_object o (S fuel) depth (HInt 64 z) = Some (CVal (VInt z)) /\
+  to_object o (S fuel) depth (HFloat bits f) = Some (CVal (VFloat f)) /\
+  to_object o (S fuel) depth (HString s) = Some (CVal (VStr s)) /\
+  to_object o (S fuel) depth (HBool b) = Some (CVal (VBool b)) /\
+  to_object o (S fuel) depth (HTime u) = Some (CVal (VInt u)) /\
+  to_object o (S fuel) depth HNil = Some (CVal VNull).
 Proof. exact ReflectProofs.scalars_lossless. Qed.
 
 (* slices of supported elements become arrays of the same length, in the same order *)
-Theorem C04_slices_lossless : forall o fuel (l : list hostval) (vs : list value),
+Theorem C04_slices_lossless : forall o fuel depth (l : list hostval) (vs : list value),
   Forall2 (fun h v => slice_elem h = Some v) l vs ->
-  to_object o (S fuel) (HSlice l) = Some (CVal (VArray vs)).
+  to_object o (S fuel) depth (HSlice l) = Some (CVal (VArray vs)).
 Proof. exact ReflectProofs.slices_lossless. Qed.
 
 (* a kind the engine cannot represent yields null - and converting NEVER panics *)
-Theorem C04_unsupported_is_null : forall o fuel bits z h,
-  to_object o (S fuel) (HUint bits z) = Some (CVal VNull) /\
-  to_object o (S fuel) (HInt 8 z) = Some (CVal VNull) /\
-  to_object o (S fuel) (HPtr h) = Some (CVal VNull) /\
-  to_object o (S fuel) HNilPtr = Some (CVal VNull) /\
-  to_object o (S fuel) HOther = Some (CVal VNull) /\
-  to_object o (S fuel) (HIface h) = Some (CVal VNull).
+Theorem C04_unsupported_is_null : forall o fuel depth bits z h,
+  to_object o (S fuel) depth (HUint bits z) = Some (CVal VNull) /\
+  to_object o (S fuel) depth (HInt 8 z) = Some (CVal VNull) /\
+  to_object o (S fuel) depth (HPtr h) = Some (CVal VNull) /\
+  to_object o (S fuel) depth HNilPtr = Some (CVal VNull) /\
+  to_object o (S fuel) depth HOther = Some (CVal VNull) /\
+  to_object o (S fuel) depth (HIface h) = Some (CVal VNull).
 Proof. exact ReflectProofs.unsupported_is_null. Qed.
 
-Theorem C04_conversion_never_panics : forall o fuel h, to_object o fuel h <> Some CPanic.
+Theorem C04_conversion_never_panics : forall o fuel depth h, to_object o fuel depth h <> Some CPanic.
 Proof. exact ReflectProofs.conversion_never_panics. Qed.
 
 (* a struct (by value or by pointer) and a string-keyed map expose exactly their fields, each converted *)
 Theorem C04_struct_fields : forall o (fs : list (str * hostval)) (vs : list (str * value)),
-  Forall2 (fun f v => fst f = fst v /\ to_object o 64 (snd f) = Some (CVal (snd v))) fs vs ->
+  Forall2 (fun f v => fst f = fst v /\ to_object o (N.to_nat max_call_depth + 8) 0 (snd f) = Some (CVal (snd v))) fs vs ->
   host_fields o (HStruct fs) = Some (Some vs) /\ host_fields o (HPtr (HStruct fs)) = Some (Some vs) /\
   host_fields o (HMapIface fs) = Some (Some vs).
 Proof. exact ReflectProofs.struct_fields. Qed.
